@@ -596,7 +596,7 @@ namespace chaiscript {
       }
 
       /// Reads the optional exponent (scientific notation) and suffix for a Float
-      bool read_exponent_and_suffix() noexcept {
+      bool read_exponent_and_suffix() {
         // Support a form of scientific notation: 1e-5, 35.5E+8, 0.01e19
         if (m_position.has_more() && (std::tolower(*m_position) == 'e')) {
           ++m_position;
@@ -609,7 +609,9 @@ namespace chaiscript {
           }
           if (m_position == exponent_pos) {
             // Require at least one digit after the exponent
-            return false;
+            throw exception::eval_error("Missing digits after exponent in floating point literal",
+                                        File_Position(m_position.line, m_position.col),
+                                        *m_filename);
           }
         }
 
@@ -622,7 +624,7 @@ namespace chaiscript {
       }
 
       /// Reads a floating point value from input, without skipping initial whitespace
-      bool Float_() noexcept {
+      bool Float_() {
         if (m_position.has_more() && char_in_alphabet(*m_position, detail::float_alphabet)) {
           while (m_position.has_more() && char_in_alphabet(*m_position, detail::int_alphabet)) {
             ++m_position;
